@@ -787,6 +787,7 @@ func (sp *shaperOpentype) shape(font *Font, buffer *Buffer, features []Feature) 
 	const maxOpsMin = 16384
 	c.buffer.maxOps = max(len(c.buffer.Info)*maxOpsFactor, maxOpsMin)
 	c.buffer.maxLen = max(len(c.buffer.Info)*maxLenFactor, maxLenMin)
+	verifStage(c.buffer, "start")
 
 	// save the original direction, we use it later.
 	c.targetDirection = c.buffer.Props.Direction
@@ -812,12 +813,14 @@ func (sp *shaperOpentype) shape(font *Font, buffer *Buffer, features []Feature) 
 	}
 
 	c.substituteBeforePosition() // apply GSUB
+	verifStage(c.buffer, "substituted")
 
 	if debugMode {
 		fmt.Println("AFTER SUBSTITUTE", c.buffer.Info)
 	}
 
 	c.position()
+	verifStage(c.buffer, "positioned")
 
 	if debugMode {
 		fmt.Println("AFTER POSITION", c.buffer.Pos)
@@ -828,6 +831,7 @@ func (sp *shaperOpentype) shape(font *Font, buffer *Buffer, features []Feature) 
 	propagateFlags(c.buffer)
 
 	c.buffer.Props.Direction = c.targetDirection
+	verifStage(c.buffer, "end")
 
 	c.buffer.maxOps = maxOpsDefault
 }
